@@ -208,6 +208,15 @@ def _orders(ctx):
         for st in strays:
             for body in ([good, st], [st, good], [good, st, st], [pool[0], good, st, pool[2]], [good, st, pool[1], st]):
                 check_e2e(ctx, body, "stray line among classified lines")
+    # a text that quotes a whole event line of another (or the same) kind: the line is still ONE event of the kind
+    # its own beginning says
+    inner = ['1200 = E "lyric Lo-"', '7 = E "section B"', '9 = E "solo"', '  3 = E "lyric x"  ']
+    for kw in ("lyric ", "section "):
+        for inn in inner:
+            for tmpl in ('%scue: %s', '%s%s', '%sa "b" %s c'):
+                line = '960 = E "%s"' % (tmpl % (kw, inn))
+                check_line(ctx, _order(), line, "text quoting an event line")
+                check_e2e(ctx, [pool[0], line, pool[1]], "text quoting an event line")
     # identical lines repeated (each occurrence is its own event)
     for a_ in pool[:3]:
         for b_ in pool[:3]:
